@@ -28,6 +28,8 @@ pub struct DevState {
     pub faulted: bool,
     /// keep failing after the first fault (device stays broken)
     pub sticky_fault: bool,
+    /// report the injected fault with ErrorKind::Interrupted (the retryable kind)
+    pub fault_interrupted: bool,
     /// short-transfer schedule: every read/write moves at most sched[i % len] bytes
     pub chunks: Vec<usize>,
     pub chunk_i: usize,
@@ -97,7 +99,8 @@ impl DevState {
         self.opcount += 1;
         if self.fault_at == Some(i) || (self.sticky_fault && self.faulted) {
             self.faulted = true;
-            return Err(Error::new(ErrorKind::Other, "injected device fault"));
+            let kind = if self.fault_interrupted { ErrorKind::Interrupted } else { ErrorKind::Other };
+            return Err(Error::new(kind, "injected device fault"));
         }
         Ok(())
     }
